@@ -138,6 +138,10 @@ end
 
 theorem andThen_fs_err (fs : Fs) (e : Errno) (k : Fs → Res) : (andThen fs (.error e) k).fs = fs := rfl
 theorem andThen_ok (fs fs' : Fs) (k : Fs → Res) : andThen fs (.ok fs') k = k fs' := rfl
+theorem andThenDirs_ok {fs fs' : Fs} {p : List Name} (h : createDirAll fs p = .ok fs') (k : Fs → Res) :
+    andThenDirs fs p k = k fs' := by unfold andThenDirs; rw [h]
+theorem andThenDirs_err {fs : Fs} {p : List Name} {e : Errno} (h : createDirAll fs p = .error e) (k : Fs → Res) :
+    andThenDirs fs p k = ⟨.err e.name, createDirAllLeft fs p⟩ := by unfold andThenDirs; rw [h]
 
 section
 variable {T : Path} (hT : ∀ c ∈ T, Normal c) (hne : T ≠ [])
@@ -160,10 +164,12 @@ theorem extractItem_good {fs : Fs} (hi : Inv T fs) (it : Item) : Good T fs (extr
         have hN := nolink_of_refuse hT hi hn (by simpa using href)
         simp only [if_true] at hN
         cases hc : createDirAll fs (T ++ relOf it.path) with
-        | error e => exact Good.refl hi
+        | error e =>
+          rw [andThenDirs_err hc]
+          exact (createDirAllLeft_good hT hne hi hn hN).1
         | ok fs1 =>
           obtain ⟨g1, q1⟩ := createDirAll_good hT hne hi hn hN hc
-          simp only [andThen_ok]
+          rw [andThenDirs_ok hc]
           cases hs : setPerm fs1 (T ++ relOf it.path) it.perm with
           | error e => exact g1
           | ok fs2 =>
@@ -268,10 +274,12 @@ theorem extractDirs_good : ∀ (ds : List Bytes) (fs : Fs), Inv T fs → NoLinks
       obtain ⟨rfl, hn⟩ := extractionPath_some hp
       simp only
       cases hc : createDirAll fs (T ++ relOf d) with
-      | error e => exact ⟨Good.refl hi, Quiet.refl _⟩
+      | error e =>
+        rw [andThenDirs_err hc]
+        exact createDirAllLeft_good hT hne hi hn (fun k _ _ t => hnl _ t (List.prefix_append _ _))
       | ok fs1 =>
         obtain ⟨g1, q1⟩ := createDirAll_good hT hne hi hn (fun k _ _ t => hnl _ t (List.prefix_append _ _)) hc
-        simp only [andThen_ok]
+        rw [andThenDirs_ok hc]
         obtain ⟨g2, q2⟩ := ih fs1 g1.1 (hnl.quiet q1)
         exact ⟨g1.trans g2, q1.trans q2⟩
 
@@ -282,6 +290,13 @@ end
 theorem andThen_not_panic (fs : Fs) (r : Except Errno Fs) (k : Fs → Res)
     (hk : ∀ fs', (k fs').out.isPanic = false) : (andThen fs r k).out.isPanic = false := by
   cases r with
+  | error e => rfl
+  | ok fs' => exact hk fs'
+
+theorem andThenDirs_not_panic (fs : Fs) (p : List Name) (k : Fs → Res)
+    (hk : ∀ fs', (k fs').out.isPanic = false) : (andThenDirs fs p k).out.isPanic = false := by
+  unfold andThenDirs
+  cases createDirAll fs p with
   | error e => rfl
   | ok fs' => exact hk fs'
 
@@ -297,7 +312,7 @@ theorem extractItem_not_panic (T : List Name) (fs : Fs) (it : Item) : (extractIt
       simp only
       split
       · rfl
-      · exact andThen_not_panic _ _ _ (fun _ => andThen_not_panic _ _ _ (fun _ => rfl))
+      · exact andThenDirs_not_panic _ _ _ (fun _ => andThen_not_panic _ _ _ (fun _ => rfl))
     | regular =>
       simp only
       split
@@ -334,7 +349,7 @@ theorem extractDirs_not_panic (T : List Name) : ∀ (ds : List Bytes) (fs : Fs),
     unfold extractDirs
     cases extractionPath T d with
     | none => rfl
-    | some p => exact andThen_not_panic _ _ _ (fun fs' => ih fs')
+    | some p => exact andThenDirs_not_panic _ _ _ (fun fs' => ih fs')
 
 theorem extract_not_panic (inp : Input) (T : List Name) (fs : Fs) : (extract inp T fs).out.isPanic = false := by
   unfold extract
@@ -400,6 +415,26 @@ theorem cdaRev_logged : ∀ (rev : List Name) (fs fs' : Fs), createDirAllRev fs 
       · injection h with h; subst h; exact Logged.refl _
       · cases h
 
+theorem cdaLeftRev_logged : ∀ (rev : List Name) (fs : Fs), Logged fs (createDirAllLeftRev fs rev) := by
+  intro rev
+  induction rev with
+  | nil => intro fs; exact Logged.refl _
+  | cons c rp ih =>
+    intro fs
+    unfold createDirAllLeftRev
+    split
+    · split
+      · exact ih fs
+      · rename_i fs1 h1; exact cdaRev_logged _ _ _ h1
+    · exact Logged.refl _
+
+theorem andThenDirs_logged {fs : Fs} {p : List Name} {k : Fs → Res}
+    (h2 : ∀ fs', createDirAll fs p = .ok fs' → Logged fs' (k fs').fs) : Logged fs (andThenDirs fs p k).fs := by
+  unfold andThenDirs
+  cases hc : createDirAll fs p with
+  | error e => exact cdaLeftRev_logged _ _
+  | ok fs' => exact (cdaRev_logged _ _ _ hc).trans (h2 fs' hc)
+
 theorem andThen_logged {fs : Fs} {r : Except Errno Fs} {k : Fs → Res}
     (h1 : ∀ fs', r = .ok fs' → Logged fs fs') (h2 : ∀ fs', r = .ok fs' → Logged fs' (k fs').fs) :
     Logged fs (andThen fs r k).fs := by
@@ -418,7 +453,7 @@ theorem extractItem_logged (T : List Name) (fs : Fs) (it : Item) : Logged fs (ex
       simp only
       split
       · exact Logged.refl _
-      · exact andThen_logged (fun _ h => cdaRev_logged _ _ _ h) (fun fs1 _ =>
+      · exact andThenDirs_logged (fun fs1 _ =>
           andThen_logged (fun _ h => setPerm_logged h) (fun _ _ => Logged.refl _))
     | regular =>
       simp only
@@ -461,7 +496,7 @@ theorem extractDirs_logged (T : List Name) : ∀ (ds : List Bytes) (fs : Fs), Lo
     unfold extractDirs
     cases extractionPath T d with
     | none => exact Logged.refl _
-    | some p => exact andThen_logged (fun _ h => cdaRev_logged _ _ _ h) (fun fs1 _ => ih fs1)
+    | some p => exact andThenDirs_logged (fun fs1 _ => ih fs1)
 
 /-- the log is sound for EVERY run: whatever differs afterwards was logged -/
 theorem extract_logged (inp : Input) (T : List Name) (fs : Fs) : Logged fs (extract inp T fs).fs := by
